@@ -194,9 +194,9 @@ from ..chain import Chain, bank_of
 from .c04 import CONTRACTS, swap_msg, setup_world, _replay_s1, HINT as HINT4
 
 
-def _ob_swap_tolerance(with_tol):
+def _ob_swap_tolerance(with_tol, belief=False):
     def s(I):
-        I.set_hint(HINT4)
+        I.set_hint(dict(HINT4, belief_price_atomics=E18 // 2))
         x = I.sym('reserve_x', lo=1, hi=U128)
         y = I.sym('reserve_y', lo=1, hi=U128)
         fees, (p, sf, bu, ex) = sym_fees(I, 0)
@@ -214,11 +214,12 @@ def _ob_swap_tolerance(with_tol):
             tol_v = None
         ch = Chain(I, CONTRACTS)
         pre = b.snapshot()
-        st, resp = ch.execute('trader', PM, swap_msg('uB', 'p1', max_slippage=tol_v), [coin_v('uA', o)])
+        bp = I.sym('belief_price_atomics', lo=1, hi=U128) if belief else None
+        st, resp = ch.execute('trader', PM, swap_msg('uB', 'p1', max_slippage=tol_v, belief=Some(bp) if belief else None), [coin_v('uA', o)])
         if st != 'ok':
             I.outcome('rejected')
             return
-        I.cover('ok', HINT4)
+        I.cover('ok', dict(HINT4, belief_price_atomics=E18 // 2))
         I.observe('status', 'ok')
         observe_pool(I, 'p1')
         observe_bank(I, b, [(PM, 'uA'), (PM, 'uB'), ('trader', 'uA'), ('trader', 'uB'), ('fee_collector', 'uB')], ['uB'])
@@ -229,6 +230,14 @@ def _ob_swap_tolerance(with_tol):
         spot = f(simp(y * E18), x)
         at_spot = f(simp(o * spot), E18)
         slip = simp(at_spot - gross + fee_sum)
+        if belief:
+            # what the caller expects at the believed price: offer / belief (18-decimal inverse, rounded down as documented)
+            expected = f(f(simp(o * E18 * f(E18 * E18, bp)), E18), E18)
+            short = z3.If(expected >= ret, expected - ret, 0)
+            I.check('executes_only_within_tolerance_of_belief_price',
+                    smt.Or(ret >= expected, f(simp(short * E18), expected) <= cap))
+            I.check('receiver_got_the_return', smt.Eq(b.get('trader', 'uB') - pre.get('trader', 'uB'), ret))
+            return
         I.check('executes_only_within_tolerance', f(simp(slip * E18), simp(ret + slip)) <= cap)
         I.check('receiver_got_the_return', smt.Eq(b.get('trader', 'uB') - pre.get('trader', 'uB'), ret))
     return s
@@ -241,3 +250,9 @@ for _wt in (True, False):
                          'within min(max_slippage, 50%%)%s' % ('' if _wt else ' = 1% when omitted'),
                bounds='reserves, offer [1,2^128), real is_valid fees, tolerance %s' % ('any Decimal' if _wt else 'omitted'),
                covers=['ok'], replay=_replay_s1(0, 'none') if _wt else None)(_ob_swap_tolerance(_wt))
+
+obligation('C13', 'S1.swap_enforces_belief_price', entries=['execute', 'swap::commands::swap', 'perform_swap', 'compute_swap', 'assert_max_slippage'], kind='S',
+           statement='an executed constant-product swap with a belief price p pays the trader at least floor(offer/p) or falls short of it by a fraction '
+                     'of at most min(max_slippage, 50%) -- measured on what the trader receives, not on return + spread',
+           bounds='reserves, offer [1,2^128), real is_valid fees, belief price and tolerance any Decimal', covers=['ok'],
+           replay=_replay_s1(0, 'none', belief=True))(_ob_swap_tolerance(True, belief=True))
